@@ -113,8 +113,9 @@ def multi_gate_stage(ck, res, dec, ffs, tier, rng):
                              what="gen_coords on one generated molecule (residue graph %s): connectivity gate %s" % ("connected" if conn else "disconnected", single))
             itps[name], chosen[name] = str(out), i
             break
-    if len(itps) < 4:
-        raise c.MachineryError("gate stage: could not generate the four molecules (%s)" % sorted(itps))
+    # a precondition that misbehaving code can break: exit 2 only on a run without violations, otherwise the stage is skipped
+    if not ck.require(len(itps) == 4, "gate stage: could not generate the four molecules (%s)" % sorted(itps)):
+        return
     pick = tops if tier == "thorough" or len(tops) <= 160 else rng.sample(tops, 160)
     # the shapes named in the statement of the seed are always there: disconnected molecule first / in the middle / last, repeated types
     must = [t for t in tops if [e["mol"] for e in t["top"]] in (["d1", "c1", "c2"], ["c1", "d1", "c2"], ["c1", "c2", "d1"], ["c1", "c1", "d1"], ["c1", "d1"], ["c1", "c2"])
@@ -336,8 +337,7 @@ def run(tier):
     ck.sample({"I->S record": {"residues": recs[0]["input"]["rattr"], "edges": recs[0]["input"]["edges"], "warned": recs[0]["obs"]["missing"]}})
     ck.stage("binding demonstration")
     good = [r for r in recs if r["obs"]["missing"] and not r["obs"]["exception"]]
-    if not good and not ck.violations:
-        raise c.MachineryError("binding demonstration: no record with a missing-link warning")
+    ck.require(bool(good), "binding demonstration: no record with a missing-link warning")
     rec = json.loads(json.dumps(good[0])) if good else None
     base_rej, base_skip = c02.validate_records(ck, [rec], "binding_ok", expect_reject=True) if rec else ({0: "-"}, set())
     if not base_rej and not base_skip:
